@@ -13,6 +13,7 @@ import core                         # noqa: E402
 from cxx2c import Unsupported       # noqa: E402
 
 import ellipsoid_num                # noqa: E402
+import bundle_num                   # noqa: E402
 
 
 def guarded(job, what):
@@ -34,6 +35,20 @@ def build(tier):
     for n in (1, 2, 3):
         for first in (True, False):
             jobs.append(guarded(lambda n=n, first=first: ellipsoid_num.iteration_vcs(n, first, info, thorough), f'ellipsoid iteration n={n}'))
+    # bundle_t: dimension n of x, m entries, capacity 4 (= bundle::max_size 3; m == 3 is the full bundle that delete_largest aggregates)
+    astload.dump(bundle_num.TU, bundle_num.FLT)
+    cap = 4
+    for n, m in ((1, 0), (1, 1), (2, 0), (2, 1), (2, 2), (3, 2)):
+        for serious in (True, False):
+            jobs.append(guarded(lambda n=n, m=m, serious=serious: bundle_num.append4_vcs(n, m, cap, serious, info), f'bundle append n={n} m={m}'))
+    for n, m in ((1, 1), (2, 0), (2, 1), (3, 2)):
+        for which in ('moveto', 'append'):
+            jobs.append(guarded(lambda n=n, m=m, which=which: bundle_num.caller_vcs(which, n, m, cap, info), f'bundle {which} n={n} m={m}'))
+    for n, m in ((1, 1), (2, 2), (2, 3), (3, 3)):
+        jobs.append(guarded(lambda n=n, m=m: bundle_num.aggregate_vcs(n, m, cap, info), f'bundle store_aggregate n={n} m={m}'))
+        jobs.append(guarded(lambda n=n, m=m: bundle_num.converged_vcs(n, m, cap, info), f'bundle e/sconverged n={n} m={m}'))
+    for n, m in ((1, 0), (2, 1), (3, 2)):
+        jobs.append(guarded(lambda n=n, m=m: bundle_num.append_aggregate_vcs(n, m, cap, info), f'bundle append_aggregate n={n} m={m}'))
     bounded = []
     for r in [j() for j in jobs]:
         bounded += r
